@@ -14,6 +14,9 @@ _ABSENT = object()
 # attributes a class object has through its metaclass chain ending in `type` (and `object`)
 TYPE_ATTRIBUTES = frozenset(n for n in dir(type) if n not in ("__name__", "__doc__", "__module__", "__dict__", "__getattr__", "__getitem__"))
 
+_SUPER_TYPE = object()
+
+
 class AccessMixin:
     # ------------------------------------------------------------------
     # attributes
@@ -54,6 +57,24 @@ class AccessMixin:
         return "'%s' object" % self.kind_of(obj)
 
     def get_attr(self, obj, name, node, frame):
+        if isinstance(obj, slice) and name in ("start", "stop", "step"):
+            return getattr(obj, name)
+        if isinstance(obj, PropertyVal):
+            if name in ("fget", "fset"):
+                return getattr(obj, name)
+            if name == "fdel":
+                return None
+            if name in ("setter", "getter"):
+                return Builtin("property.%s" % name, lambda a, k, n, f: PropertyVal(a[0] if name == "getter" else obj.fget,
+                                                                                     a[0] if name == "setter" else obj.fset))
+            if name == "__doc__":
+                return self.get_attr(obj.fget, "__doc__", node, frame) if obj.fget is not None else None
+            raise AnalysisError("unmodelled-builtin", "property.%s used at %s" % (name, frame.where(node)))
+        if isinstance(obj, (NTuple, IntEnumMember, EnumMember, PartialVal)) or (isinstance(obj, ClassVal) and name.startswith("_")):
+            from .stdlib_model import _NO
+            r = self.stdlib_attr(obj, name, node, frame)
+            if r is not _NO:
+                return r
         if name == "__dict__" and isinstance(obj, (EnumVal, ClassVal, Instance)):
             return self.bi_vars([obj], {}, node, frame)          # the namespace vars() shows
         if isinstance(obj, ModuleVal):
@@ -138,6 +159,9 @@ class AccessMixin:
             return Unknown("attr %s of unknown(%s)" % (name, obj.reason))
         if type(obj).__name__ == "SuperProxy":
             I = self
+            r = self.super_attr(obj, name, node, frame)
+            if r is not _SUPER_TYPE:
+                return r
             if name == "__new__":
                 def type_new(a, k, n, f):
                     # type.__new__(mcs, name, bases, namespace): a new class whose
@@ -193,6 +217,74 @@ class AccessMixin:
             return m
         return self.attr_error(obj, name, node, frame)
 
+    def super_attr(self, sp, name, node, frame):
+        """super().name: the next definition of `name` after the class the running method was written in, along the MRO of the
+        object's class, bound to the object; the built-in ends of the chain (object, type, the exception classes) as python
+        defines them.  _SUPER_TYPE: the chain ends in `type` itself (a metaclass creating its class)"""
+        start, o = sp.start, sp.obj
+        if isinstance(o, Instance):
+            chain = o.cls.mro()
+        elif isinstance(o, ClassVal):
+            chain = o.mro() if (isinstance(start, ClassVal) and start in o.mro()) else (o.metaclass.mro() if isinstance(o.metaclass, ClassVal) else [])
+        elif isinstance(o, EnumVal) and isinstance(o.cls, ClassVal):
+            chain = o.cls.mro()
+        else:
+            chain = []
+        if not isinstance(start, ClassVal) or start not in chain:
+            if isinstance(start, ClassVal) and any(c.builtin and c.name == "type" for c in start.mro()):
+                chain = start.mro()                  # a metaclass method running for a class it is creating
+            else:
+                raise AnalysisError("unmodelled-builtin", "super() outside the class hierarchy of its object at %s" % frame.where(node))
+        rest = chain[chain.index(start) + 1:]
+        for c in rest:
+            if c.builtin:
+                break
+            if name in c.attrs or name in c.injected:
+                v = c.attrs[name] if name in c.attrs else c.injected[name]
+                if isinstance(v, FuncVal):
+                    if v.kind == "staticmethod" or name == "__new__":
+                        return v
+                    if v.kind == "classmethod":
+                        return BoundMethod(v, o if isinstance(o, (ClassVal, EnumVal)) else o.cls)
+                    if name == "__init_subclass__" and isinstance(o, ClassVal):
+                        return BoundMethod(v, o)
+                    return BoundMethod(v, o)
+                if isinstance(v, PropertyVal):
+                    if v.fget is None:
+                        return self.attr_error(o, name, node, frame)
+                    return self.call_function(v.fget, [o], {}, node, frame)
+                return v
+        builtin_tail = [c for c in rest if c.builtin]
+        if any(c.name == "type" for c in builtin_tail):
+            if name in ("__new__", "__init__"):
+                return _SUPER_TYPE
+            if name in ("__call__", "__getattribute__", "__setattr__", "__delattr__", "mro", "__prepare__", "__instancecheck__", "__subclasscheck__"):
+                raise AnalysisError("unmodelled-builtin", "super().%s of a metaclass at %s" % (name, frame.where(node)))
+        if name == "__init__":
+            exc = any(c.name in ("BaseException", "Exception") for c in builtin_tail)
+
+            def base_init(a, k, n, f):
+                if exc and isinstance(o, Instance):
+                    o.args = tuple(a)
+                elif (a or k) and not exc and not builtin_tail[:-1]:
+                    raise PyRaise(Instance(self.bclasses["TypeError"], ("object.__init__() takes exactly one argument (the instance to initialize)",)), n, f.where(n))
+                return None
+            return Builtin("super().__init__", base_init)
+        if name in ("__init_subclass__", "__set_name__", "__post_init__"):
+            return Builtin("object.%s" % name, lambda a, k, n, f: None)
+        if name == "__setattr__" and isinstance(o, Instance):
+            return Builtin("object.__setattr__", lambda a, k, n, f: self.get_attr(self.bclasses["object"], "__setattr__", n, f).fn([o] + list(a), k, n, f))
+        if name == "__enter__" or name == "__exit__":
+            return self.attr_error(o, name, node, frame)
+        if name in ("__str__", "__repr__", "__eq__", "__ne__", "__hash__", "__getattribute__", "__getattr__", "__delattr__", "__new__",
+                    "__reduce__", "__format__", "__sizeof__", "__dir__", "__class__"):
+            raise AnalysisError("unmodelled-builtin", "super().%s reaching a built-in class at %s" % (name, frame.where(node)))
+        return self.attr_error(o, name, node, frame)
+
+    def full_mro(self, cls):
+        m = cls.mro()
+        return m if any(c.builtin and c.name == "object" for c in m) else m + [self.bclasses["object"]]
+
     def class_attr(self, cls, name, node, frame):
         v, owner = cls.lookup(name)
         if owner is None:
@@ -201,9 +293,9 @@ class AccessMixin:
             if name == "__dict__":
                 return cls.attrs
             if name == "__mro__":
-                return tuple(cls.mro())
+                return tuple(self.full_mro(cls))
             if name == "mro":
-                return Builtin("%s.mro" % cls.name, lambda a, k, n, f: list(cls.mro()))
+                return Builtin("%s.mro" % cls.name, lambda a, k, n, f: list(self.full_mro(cls)))
             if name == "__bases__":
                 return tuple(cls.bases) if cls.bases else (self.bclasses["object"],)
             if name == "__qualname__":
@@ -226,6 +318,21 @@ class AccessMixin:
                     raise AnalysisError("unmodelled-builtin", "type.__new__ with these arguments at %s" % f.where(n))
                 return Builtin("type.__new__", explicit_type_new)
             if cls.builtin or any(c.builtin for c in cls.mro()):
+                if name == "__setattr__":
+                    I2 = self
+
+                    def object_setattr(a, k, n, f):
+                        # object.__setattr__(obj, name, value): the plain store, past any __setattr__ of the class
+                        was = getattr(I2, "_object_setattr", False)
+                        I2._object_setattr = True
+                        try:
+                            I2.set_attr(a[0], a[1], a[2], n, f)
+                        finally:
+                            I2._object_setattr = was
+                        return None
+                    return Builtin("object.__setattr__", object_setattr)
+                if name == "__init_subclass__":
+                    return Builtin("object.__init_subclass__", lambda a, k, n, f: None)
                 if name in ("__init__", "__new__", "mro", "__doc__", "__module__", "__qualname__", "__subclasses__"):
                     return Builtin("%s.%s" % (cls.name, name), lambda a, k, n, f: None)
                 if cls.name == "dict" and name == "fromkeys":
@@ -269,6 +376,11 @@ class AccessMixin:
                     return self.attr_error(obj, name, node, frame)
                 self.call_function(pv.fset, [obj, v], {}, node, frame)
                 return
+            if getattr(obj.cls, "dc_frozen", False) or any(getattr(c, "dc_frozen", False) for c in obj.cls.mro()):
+                if not getattr(self, "_object_setattr", False):
+                    from .standin import ExtExc
+                    raise PyRaise(ExtExc("FrozenInstanceError", ("FrozenInstanceError", "AttributeError", "Exception", "BaseException")),
+                                  node, frame.where(node))
             self.event("attr-store", target="instance", cls=obj.cls.qualname, name=name, value=v,
                        where=frame.where(node), node=node, obj=obj)
             obj.attrs[name] = v
@@ -352,6 +464,13 @@ class AccessMixin:
 
     def get_item(self, obj, key, node, frame):
         key = norm_int(key) if not isinstance(key, slice) else key
+        if isinstance(obj, ClassVal) and self.enum_class_of(obj) is not None:
+            if isinstance(key, str):
+                members = self.enum_class_of(obj).enum_members
+                if key in members:
+                    return members[key]
+                return self.key_error(key, node, frame, members)
+            raise AnalysisError("unmodelled-stdlib", "%s[<not a constant name>] at %s" % (obj.name, frame.where(node)))
         if isinstance(obj, Unknown):
             return Unknown("item of unknown(%s)" % obj.reason)
         if isinstance(obj, External):
